@@ -1,7 +1,10 @@
 package workqueue
 
 // Method A: schedules found by TLC on specs/WorkQueue (MC_f3/f4/f5/f6.cfg and variants) replayed on
-// the REAL primitives of /repo/pkg/workqueue.  No hook: goroutines are parked inside caller-supplied
+// the REAL primitives of /repo/pkg/workqueue.  F3, F4 and F6 were genuine defects found this way and
+// are fixed in /repo (commits 4a6260676, 3996f0eab, 294b0250e): their schedules must not reproduce any
+// more (a reproduction carries the old signature, which known-findings.json lists as "fixed", so the
+// runner reports it as a fresh violation).  F5 is still open and is reported with its signature.  No hook: goroutines are parked inside caller-supplied
 // code the primitive invokes at the interesting points (observer callbacks, the handler, the batch
 // policy, a caller context whose Err() blocks).  Gate waits are bounded; an expired bound never
 // produces a verdict by itself - the oracle is always the property on the observed history
